@@ -280,6 +280,11 @@ pub trait Kind<'s>: Input<'s, Token = Self::Tok, Span = Self::Spn> + Sized + 's 
     fn p_select_ref<R: Er<'s, Self>>(set: &str, flavour: SelFlavour) -> BP<'s, Self, R> {
         Self::p_select::<R>(set, flavour)
     }
+    /// item sources joined by `then` and consumed as one IterParser. Default: the same grammar with every part
+    /// collected on its own and the lists concatenated (semantically equal); `&str` builds the real IterParser chain
+    fn p_iter_then<R: Er<'s, Self>>(this: &mut Bld<'s, Self, R>, parts: &[G], sink: u8) -> BP<'s, Self, R> {
+        crate::build_c::iter_then_fallback(this, parts, sink)
+    }
     /// `a.nested_in(group)`: only the token-tree kind has group tokens (C16)
     fn p_nested_in<R: Er<'s, Self>>(_a: BP<'s, Self, R>) -> BP<'s, Self, R> {
         unreachable!("nested_in needs the token-tree input kind")
@@ -600,6 +605,9 @@ fn tok_slice_val<T: Tk>(s: &[T]) -> Val {
 
 impl<'s> Kind<'s> for &'s str {
     value_kind_prims!();
+    fn p_iter_then<R: Er<'s, Self>>(this: &mut Bld<'s, Self, R>, parts: &[G], sink: u8) -> BP<'s, Self, R> {
+        crate::build_c::iter_then_str(this, parts, sink)
+    }
     fn cb_box<R: Er<'s, Self>, T: Parser<'s, Self, Val, Ex<R>> + Clone + 's>(p: T) -> BP<'s, Self, R> {
         if DEEP_CLONE.with(|d| d.get()) {
             let c = p.clone();
@@ -1011,6 +1019,7 @@ impl<'s, I: Kind<'s>, R: Er<'s, I>> Bld<'s, I, R> {
             Just(_) | Any | OneOf(_) | NoneOf(_) | Select(_) | End | Empty | Custom { .. } | G::Ext { .. } | Then(..) | IgnoreThen(..) | ThenIgnore(..) | Group(_) | GroupArr(_) | Or(..) | Choice(_) | ChoiceVec(_) | ChoiceArr(_) | OrNot(_) | Not(_) | AndIs(..) | Rewind(_) | Delim { .. } | PaddedBy(..) => crate::build_a::node_a(self, g),
             Map(..) | To(..) | Ignored(_) | Filter(..) | TryMap(..) | TryMapWith(..) | ToSlice(_) | MapSlice(_) | ToSpan(_) | MapSpan(_) | Unwrapped(_) | IntoIter(..) => crate::build_b::node_b(self, g),
             G::Rep(r) => crate::build_c::rep_node(self, r),
+            IterThen(parts, k) => I::p_iter_then::<R>(self, parts, *k),
             Validate(..) | Recover(..) | Labelled(..) | MapErr(..) | Memo(_) | Wrapped(..) | Rec(..) | RecRef(_) | Lazy(_) | NestedIn(_) => crate::build_d::node_d(self, g),
             StPush(..) | StObs(_) | WithState(..) | WithCtx(..) | ThenWithCtx(..) | IgnoreWithCtx(..) | MapCtx(..) | CxObs(_) | JustCfg(_) | Track(..) => crate::build_e::node_e(self, g),
         }
